@@ -2,7 +2,7 @@
 //@ props C05 C01 C04
 //@ kind P
 //@ def quick NMAX=8
-//@ def thorough NMAX=32
+//@ def thorough NMAX=16
 //@ enforce XMLUTF16Transcoder_transcodeFrom
 //@ entry h_utf16_from
 //@ note P: iterations unbounded through loop contracts; buffer LENGTHS are bounded by -DNMAX (maxChars <= NMAX, srcCount <= 2*NMAX+1) because cbmc needs finite objects
